@@ -18,6 +18,48 @@ def shared_classes(ctx):
     return out
 
 
+def module_level_instances(prog):
+    """(module, name, class) for every object of a package class created by a module-level statement: one object for the whole process."""
+    from ..srcmodel import Class
+    out = []
+    for m in prog.modules.values():
+        cands = []
+        for st in m.toplevel:
+            if isinstance(st, (ast.Assign, ast.AnnAssign)) and getattr(st, "value", None) is not None:
+                tgt = st.targets[0] if isinstance(st, ast.Assign) else st.target
+                cands.append((ast.unparse(tgt), st.value))
+        for name, d in m.defs.items():
+            if isinstance(d, tuple) and d[0] == "const" and isinstance(d[1], ast.AST):
+                cands.append((name, d[1]))
+        for name, val in cands:
+            if isinstance(val, ast.Call) and isinstance(val.func, (ast.Name, ast.Attribute)):
+                try:
+                    d = prog.resolve_expr(m, val.func)
+                except AnalysisError:
+                    d = None
+                if isinstance(d, Class):
+                    out.append((m, name, d))
+    return out
+
+
+def module_object_rule(ctx, eff, rule):
+    """Stores to self.<attr> outside the constructor in a class one instance of which is created at module level (a lazily filled table,
+    a memo on a singleton): every thread and every call shares that object.  Decided on the syntax tree alone, so it still answers when the
+    rest of the analysis cannot evaluate the class (a subclass of a builtin container)."""
+    prog = ctx.program
+    for m, name, cls in module_level_instances(prog):
+        rule.instance({"module-level object": f"{m.relpath}: {name} = {cls.name}(...)"})
+        for k in cls.mro(prog):
+            for f in eff.funcs:
+                if f.cls is not k or f.name in ("__init__", "__new__", "__init_subclass__"):
+                    continue
+                for e in eff.direct_effects(f):
+                    if e.kind == "self-store":
+                        rule.finding(f"{f.short}:self.{e.target}", f"{f.short} stores self.{e.target} after construction, and {name} in {m.relpath} is one {cls.name} object created when "
+                                     f"the module is imported: every caller and every thread shares it, so what one call leaves there (a 'loaded' flag set before the "
+                                     f"loading is done, a memo) is what a concurrent or later call reads", e.where, witness={"object": name, "class": cls.name, "attribute": e.target})
+
+
 def lazy_facts(ctx, eff):
     """R14-lazy: names loaded at import and the names read at runtime."""
     prog = ctx.program
@@ -94,6 +136,9 @@ def slow_path_skip(ctx, eff, lazy_ok):
 def run(ctx, report):
     prog = ctx.program
     eff = Effects(prog)
+    r_mo = report.rule("R14-module-objects", floor=0, what="no class with an instance created at module level stores attributes outside its constructor")
+    module_object_rule(ctx, eff, r_mo)
+    r_mo.instance({"module-level instances of package classes": len(module_level_instances(prog))})
     shared = shared_classes(ctx)
     report.explanation = (
         "Sufficient condition for every interleaving: no function reachable at run time from the public API writes state that another thread can reach. "
